@@ -9,6 +9,7 @@ import (
 	"fmt"
 	"io"
 	"sort"
+	"strconv"
 	"sync/atomic"
 	"time"
 
@@ -40,6 +41,33 @@ type VerifReplItem struct {
 	Hash64 uint64 `json:"hash64,omitempty"`
 	Body   string `json:"body"`
 	Local  bool   `json:"local,omitempty"`
+	Create uint64 `json:"create,omitempty"` // CreateIndex at the primary (0 = 1)
+}
+
+// A decimal Body carries, in bits 20..22, a secondary attribute the state store validates:
+//
+//	policies, roles:  0 = a name derived from the id (always free), k>0 = the shared name "shared-name-k"
+//	service-defaults: 1 = Protocol "http", anything else = no protocol (tcp)
+func verifReplAttr(body string) int {
+	n, err := strconv.ParseUint(body, 10, 64)
+	if err != nil {
+		return 0
+	}
+	return int((n >> 20) & 7)
+}
+
+func verifReplName(prefix, id, body string) string {
+	if k := verifReplAttr(body); k > 0 {
+		return fmt.Sprintf("shared-name-%d", k)
+	}
+	return prefix + id
+}
+
+func (it VerifReplItem) createIndex() uint64 {
+	if it.Create == 0 {
+		return 1
+	}
+	return it.Create
 }
 
 type VerifReplDiff struct {
@@ -73,17 +101,17 @@ func verifReplToken(it VerifReplItem) *structs.ACLToken {
 func verifReplPolicy(it VerifReplItem) *structs.ACLPolicy {
 	return &structs.ACLPolicy{
 		ID:        it.ID,
-		Name:      "policy-" + it.ID,
+		Name:      verifReplName("policy-", it.ID, it.Body),
 		Rules:     it.Body,
 		Hash:      it.hash(),
-		RaftIndex: structs.RaftIndex{CreateIndex: 1, ModifyIndex: it.Mod},
+		RaftIndex: structs.RaftIndex{CreateIndex: it.createIndex(), ModifyIndex: it.Mod},
 	}
 }
 
 func verifReplRole(it VerifReplItem) *structs.ACLRole {
 	return &structs.ACLRole{
 		ID:          it.ID,
-		Name:        "role-" + it.ID,
+		Name:        verifReplName("role-", it.ID, it.Body),
 		Description: it.Body,
 		Hash:        it.hash(),
 		RaftIndex:   structs.RaftIndex{CreateIndex: 1, ModifyIndex: it.Mod},
@@ -95,7 +123,16 @@ func verifReplConfigEntry(it VerifReplItem) (structs.ConfigEntry, error) {
 	ri := structs.RaftIndex{CreateIndex: 1, ModifyIndex: it.Mod}
 	switch it.Kind {
 	case structs.ServiceDefaults:
-		return &structs.ServiceConfigEntry{Kind: structs.ServiceDefaults, Name: it.ID, Meta: meta, Hash: it.Hash64, RaftIndex: ri}, nil
+		proto := ""
+		if verifReplAttr(it.Body) == 1 {
+			proto = "http"
+		}
+		return &structs.ServiceConfigEntry{Kind: structs.ServiceDefaults, Name: it.ID, Protocol: proto, Meta: meta, Hash: it.Hash64, RaftIndex: ri}, nil
+	case structs.ServiceRouter: // needs an http-like protocol for its service
+		return &structs.ServiceRouterConfigEntry{Kind: structs.ServiceRouter, Name: it.ID, Meta: meta, Hash: it.Hash64, RaftIndex: ri}, nil
+	case structs.IngressGateway: // one http listener routing to the service of the same name
+		return &structs.IngressGatewayConfigEntry{Kind: structs.IngressGateway, Name: it.ID, Meta: meta, Hash: it.Hash64, RaftIndex: ri,
+			Listeners: []structs.IngressListener{{Port: 8080, Protocol: "http", Services: []structs.IngressService{{Name: it.ID}}}}}, nil
 	case structs.ProxyDefaults:
 		return &structs.ProxyConfigEntry{Kind: structs.ProxyDefaults, Name: it.ID, Meta: meta, Hash: it.Hash64, RaftIndex: ri}, nil
 	case structs.ServiceResolver:
@@ -251,6 +288,10 @@ type verifReplPrimary struct {
 	index    uint64
 	tokens   []*structs.ACLToken
 	policies []*structs.ACLPolicy
+	// a second snapshot of the primary, served by the batch reads only (nil: the same snapshot)
+	batchTokens   []*structs.ACLToken
+	batchPolicies []*structs.ACLPolicy
+	twoSnapshots  bool
 	roles    []*structs.ACLRole
 	configs  []structs.ConfigEntry
 	feds     []*structs.FederationState
@@ -274,8 +315,12 @@ func (e *verifReplACLEndpoint) TokenList(args *structs.ACLTokenListRequest, repl
 
 func (e *verifReplACLEndpoint) TokenBatchRead(args *structs.ACLTokenBatchGetRequest, reply *structs.ACLTokenBatchResponse) error {
 	e.p.calls = append(e.p.calls, "ACL.TokenBatchRead")
+	src := e.p.tokens
+	if e.p.twoSnapshots {
+		src = e.p.batchTokens
+	}
 	for _, id := range args.AccessorIDs {
-		for _, t := range e.p.tokens {
+		for _, t := range src {
 			if t.AccessorID == id {
 				c := *t
 				reply.Tokens = append(reply.Tokens, &c)
@@ -298,8 +343,12 @@ func (e *verifReplACLEndpoint) PolicyList(args *structs.ACLPolicyListRequest, re
 
 func (e *verifReplACLEndpoint) PolicyBatchRead(args *structs.ACLPolicyBatchGetRequest, reply *structs.ACLPolicyBatchResponse) error {
 	e.p.calls = append(e.p.calls, "ACL.PolicyBatchRead")
+	src := e.p.policies
+	if e.p.twoSnapshots {
+		src = e.p.batchPolicies
+	}
 	for _, id := range args.PolicyIDs {
-		for _, p := range e.p.policies {
+		for _, p := range src {
 			if p.ID == id {
 				c := *p
 				reply.Policies = append(reply.Policies, &c)
@@ -489,11 +538,34 @@ type VerifReplRound struct {
 
 // Round loads `st` into the secondary, `remote` into the simulated primary and runs ONE real
 // replication round of the given instance ("token", "policy", "role", "config", "fed").
-func (v *VerifReplServer) Round(inst string, st, remote []VerifReplItem, remoteIndex, last uint64) (out VerifReplRound, rerr error) {
-	if err := v.wipe(); err != nil {
+func (v *VerifReplServer) Round(inst string, st, remote []VerifReplItem, remoteIndex, last uint64) (VerifReplRound, error) {
+	return v.RoundOpts(inst, st, remote, remoteIndex, last, VerifReplOpts{})
+}
+
+// VerifReplOpts: Keep = do not wipe and reload the secondary (a further round on the state the previous one
+// left; `st` is ignored); TwoSnapshots = the batch reads (ACL.TokenBatchRead / ACL.PolicyBatchRead) are served
+// from Batch, another snapshot of the primary than the one the list calls see.
+type VerifReplOpts struct {
+	Keep         bool
+	TwoSnapshots bool
+	Batch        []VerifReplItem
+}
+
+func (v *VerifReplServer) RoundOpts(inst string, st, remote []VerifReplItem, remoteIndex, last uint64, opts VerifReplOpts) (out VerifReplRound, rerr error) {
+	if opts.Keep {
+		st = nil
+	} else if err := v.wipe(); err != nil {
 		return out, err
 	}
-	*v.prim = verifReplPrimary{index: remoteIndex}
+	*v.prim = verifReplPrimary{index: remoteIndex, twoSnapshots: opts.TwoSnapshots}
+	for _, it := range opts.Batch {
+		switch inst {
+		case "token":
+			v.prim.batchTokens = append(v.prim.batchTokens, verifReplToken(it))
+		case "policy":
+			v.prim.batchPolicies = append(v.prim.batchPolicies, verifReplPolicy(it))
+		}
+	}
 	store := v.s.fsm.State()
 	ctx := context.Background()
 	logger := hclog.NewNullLogger()
